@@ -118,7 +118,8 @@ def make_data(wrapped, extra=None):
         return [4, 5]
 
     d = {"seq": [3, 1, 2, 3], "recs": [{"n": 1, "a": "x"}, {"n": 2, "a": "y"}, {"n": 1, "a": "z"}], "empty": [],
-         "words": ["b", "a"], "fn": fn, "mk": mk, "n": 5, "s": "str"}
+         "words": ["b", "a"], "fn": fn, "mk": mk, "n": 5, "s": "str",
+         "recs2": [{"n": 1, "a": "x"}, {"a": "Y"}, {"n": 1}, {"a": "y", "n": 2}]}
     if extra:
         for k, v in extra.items():
             d.setdefault(k, v)
@@ -130,7 +131,8 @@ def make_data(wrapped, extra=None):
         async def amk():
             return AIterable([4, 5])
 
-        d.update(fn=afn, mk=amk, seq=AIterable(d["seq"]), recs=AIterable(d["recs"]), empty=AIterable([]), words=AIterable(d["words"]))
+        d.update(fn=afn, mk=amk, seq=AIterable(d["seq"]), recs=AIterable(d["recs"]), empty=AIterable([]), words=AIterable(d["words"]),
+                 recs2=AIterable(d["recs2"]))
     return d
 
 
@@ -151,10 +153,24 @@ SNIPS = [
     "{% for a in seq %}{% for b in words %}{{ a }}{{ b }}{{ loop.index }}{% endfor %}{% endfor %}", "{{ n + fn(n) }}{{ s ~ fn(s) }}",
     "{% for x in seq recursive %}{{ x }}{% if loop.first and loop.depth == 1 %}{{ loop(mk()) }}{% endif %}{% endfor %}",
     "{% block b %}{{ fn(1) }}{% endblock %}{{ self.b() }}", "{{ missing|default(fn(7)) }}", "{{ fn(1) is odd }}{{ fn(1) is even }}",
+    # groupby with a default for items that lack the attribute (case-insensitive and case-sensitive branch)
+    "{{ recs2|groupby('n', default=0)|map(attribute='grouper')|list }}", "{{ recs2|groupby('a', 'zz')|map('first')|list }}",
+    "{% for g, items in recs2|groupby('a', default='Q', case_sensitive=true) %}{{ g }}:{{ items|length }};{% endfor %}",
+    "{% for g in recs2|groupby('n', default=7) %}{{ g.grouper }}={{ g.list|map(attribute='a', default='-')|join }};{% endfor %}",
+    # names that are not defined, iterated (StrictUndefined environments make these errors in both modes)
+    "{% for x in nope %}x{% else %}E{% endfor %}", "{{ nope|list }}", "{{ nope|join(',') }}", "{{ nope|sum }}", "{{ nope|unique|list }}",
+    "{{ nope|groupby('a')|list }}", "{{ nope|slice(2)|list }}", "{{ nope|first }}", "{{ nope|map('string')|list }}", "{{ nope|select|list }}",
+    # import with context from inside a loop / with / macro: the imported template sees the local variables
+    "{% for x in words %}{% import 'lib5.html' as L5 with context %}{{ L5.seen }}{{ L5.lv() }}{% endfor %}",
+    "{% with x = fn(3) %}{% from 'lib5.html' import lv, seen with context %}{{ seen }}{{ lv() }}{% endwith %}",
+    "{% macro im(x) %}{% import 'lib5.html' as L5 with context %}{{ L5.seen }}{% endmacro %}{{ im('M') }}{{ im(n) }}",
+    # str start value of sum (recorded finding C09-F8)
+    "{{ words|sum(start='') }}",
     "{{ (seq|list)[0] }}{{ seq|list|length }}", "{{ seq|list|sort|join }}", "{{ words|list|reverse|join }}",
 ]
 AUX = {"inc.html": "[{{ fn(5) }}{% for x in seq %}{{ x }}{% endfor %}]",
-       "lib.html": "{% macro lm(p) %}({{ p }}{{ gfn(p) }}){% endmacro %}"}
+       "lib.html": "{% macro lm(p) %}({{ p }}{{ gfn(p) }}){% endmacro %}",
+       "lib5.html": "{% macro lv() %}<{{ x }}>{% endmacro %}{% set seen = x|default('none') %}"}
 
 # async-only failures outside the chain model: one known finding per consumer
 PROBES = [
@@ -175,9 +191,13 @@ def env_classes(jinja2):
             ("ImmutableSandboxedEnvironment", ImmutableSandboxedEnvironment), ("NativeEnvironment", NativeEnvironment)]
 
 
+UNDEFINED = [None]
+
+
 def make_env(jinja2, cls, templates, is_async):
     loader = jinja2.FunctionLoader(lambda n: (templates[n], n, lambda: True) if n in templates else None)
-    env = cls(loader=loader, enable_async=is_async)
+    kw = {"undefined": UNDEFINED[0]} if UNDEFINED[0] is not None else {}
+    env = cls(loader=loader, enable_async=is_async, **kw)
 
     def gfn(x=1):
         return x * 2 if isinstance(x, int) else x
@@ -391,6 +411,7 @@ def k_rt_chains(ctx, jinja2, loop):
 def oracle(ctx, jinja2, loop):
     classes = env_classes(jinja2)
     n = ctx.size(450, 4000)
+    UNDEFINED[0] = None
     for (src, sig) in PROBES:
         ts = {"main.html": src}
         s = run_entry(make_env(jinja2, jinja2.Environment, ts, False), loop, "main.html", make_data(False), "render")
@@ -411,6 +432,8 @@ def oracle(ctx, jinja2, loop):
             ts = dict(AUX)
             ts["main.html"] = gen_snip_template(ctx.rng)
         cname, cls = classes[i % 4] if i % 5 else classes[0]
+        uname = ["Undefined", "StrictUndefined", "ChainableUndefined", "DebugUndefined"][(i // 4) % 4] if i % 3 else "Undefined"
+        UNDEFINED[0] = getattr(jinja2, uname)
         ref = run_entry(make_env(jinja2, cls, ts, False), loop, "main.html", make_data(False, extra), "render")
         runs = [("sync", "generate", False)]
         runs += [("async", e, False) for e in ("render", "render_async", "generate", "generate_async")]
@@ -426,13 +449,14 @@ def oracle(ctx, jinja2, loop):
                 expect = run_entry(make_env(jinja2, cls, ts, False), loop, "main.html", make_data(False, extra), "generate")
             ctx.case(sample={"template": ts["main.html"][:200], "env": cname, "entry": entry, "wrapped": wrapped, "out": out[:80]}
                      if nontriv and ctx.evaluations % 577 == 0 else None,
-                     key=(ts["main.html"], cname, wrapped) if nontriv else None)
+                     key=(ts["main.html"], cname, uname, wrapped) if nontriv else None)
             ctx.count(f"o_{mode}_{entry}{'_wrapped' if wrapped else ''}")
             if out != expect:
                 cons = culprit_consumer(ts["main.html"])
-                sig = f"async generator fed to {cons}" if (cons and out.startswith("exc:")) else \
+                sig = "sum with str start" if ("sum(start=''" in ts["main.html"] and expect == "exc:TypeError") else \
+                    f"async generator fed to {cons}" if (cons and out.startswith("exc:")) else \
                     f"async differs: {cname} {entry}{' wrapped data' if wrapped else ''}"
-                ctx.reject({"templates": ts, "env": cname, "entry": entry, "mode": mode, "wrapped": wrapped, "expected": expect[:300],
+                ctx.reject({"templates": ts, "env": cname, "undefined": uname, "entry": entry, "mode": mode, "wrapped": wrapped, "expected": expect[:300],
                             "got": out[:300], "tgen_data": repr(extra) if extra else None},
                            f"{mode} {entry} on {cname}{' with async-wrapped data' if wrapped else ''} gives {out[:80]!r}, "
                            f"sync render gives {expect[:80]!r}", sig)
@@ -464,6 +488,7 @@ def replay(ctx, data):
             print("compile parity case:", case["template"][:200])
             return run(ctx)
         cls = dict(env_classes(jinja2))[case["env"]]
+        UNDEFINED[0] = getattr(jinja2, case.get("undefined", "Undefined"))
         extra = eval(case["tgen_data"]) if case.get("tgen_data") else None  # noqa: written by this harness
         ts = case["templates"]
         ref = run_entry(make_env(jinja2, cls, ts, False), loop, "main.html", make_data(False, extra), "render")
